@@ -275,7 +275,7 @@ pub fn run(tier: Tier, seed: u64) -> i32 {
         rule: "Random wide programs (type blocks, parameterised rules, nested blocks, rule references) with globally distinct rule names and a unique custom message on every clause / call, 1-3 rules files per run, on CloudFormation-shaped documents. Ground truth = top-level RuleCheck statuses and the custom messages of failing value checks per rule in the verbose record of each (rules file, document) pair. Checked: `validate --structured -o json` (payload, all rules files at once) and run_checks(verbose=false) per file: compliant / not_applicable / not_compliant are exactly the PASS / SKIP / FAIL rules, pairwise disjoint, each once; file status follows from the partition; exit code; every listed check's message belongs to a check that failed under that rule; the multi-file report is the concatenation of the single-file reports. Non-trivial: at least one FAIL rule and one rule of another status; distinct by hash of the texts.".into(),
         assumptions: vec!["rule statuses are taken from the verbose record of the same evaluation (C01/C02 judge them)".into()],
     };
-    execute("C09", tier, seed, spec, &replay, &|run: &crate::engine::Run| {
+    execute("C09", tier, seed, spec, &replay, &|run: &Session| {
         let sz = tier.pick(Size::quick(), Size::thorough());
         run.run_random("reports", tier.pick(30_000, 800_000), tier.pick(1500, 3000), |u| random_case(u, sz));
     })
